@@ -126,6 +126,12 @@ def check(run):
         for a in q.field_accesses(fn, {T + '::m_channel'}):
             if a.kind == 'assign' and q.is_this(q.access_root(a.node)):
                 rhs = q.strip_casts(a.site['args'][1] if a.site['k'] == 'call' else a.site['rhs'])
+                # `m_channel = nullptr` / `= {}` / `= shared_ptr<channel>()` reach operator= through a temporary: still a detach
+                while is_node(rhs) and rhs['k'] in ('construct', 'temp', 'bindtemp') and len(rhs.get('args', [])) <= 1:
+                    if not rhs.get('args'):
+                        rhs = {'k': 'nullptr'}
+                        break
+                    rhs = q.strip_casts(rhs['args'][0])
                 if not (is_node(rhs) and rhs['k'] == 'nullptr'):
                     attachers.setdefault(fn.norm, (fn, a))
     if len(attachers) < 2:
